@@ -135,6 +135,10 @@ def classifiers():
     add("column_ensemble", lambda: ColumnEnsembleClassifier(
         [("a", TimeSeriesForestClassifier(n_estimators=3, random_state=0), [0]),
          ("b", TimeSeriesForestClassifier(n_estimators=3, random_state=1), [1])]), multivariate=True)
+    add("column_ensemble_drop", lambda: ColumnEnsembleClassifier(
+        [("a", TimeSeriesForestClassifier(n_estimators=3, random_state=0), [0]),
+         ("skipped", "drop", [1]),
+         ("b", TimeSeriesForestClassifier(n_estimators=2, random_state=1), [1])]), multivariate=True)
     return L
 
 
